@@ -10,6 +10,16 @@
 //! (binary output = library(plan(options))). Independent oracles: every requested type has its own
 //! report at the place the documentation promises (none lost or overwritten), several types with
 //! a non-directory `-o` write nothing, sorted types list files by absolute path, no hang.
+//!
+//! Stream E puts the rest of the glue under the same comparison: directory and zip inputs, the
+//! producer's `linked-files-map.json` against `--path-mapping`, a clang `--coverage` pair and a
+//! GCC-format pair with `--llvm` on and off (the gcov tool is a recording stub named by `GCOV`),
+//! `--guess-directory-when-missing`, profiles through recording stubs of llvm-profdata / llvm-cov
+//! found through `--llvm-path`, through the sysroot that a stub `$RUSTC` answers, or not at all —
+//! with the ENVIRONMENT variable `LLVM_PATH` naming a third stub directory that must never run —
+//! with and without `--binary-path`, and the log target (file / not creatable / stdout / stderr)
+//! seen through the error line of a rejected tracefile. The stubs that ran must be exactly the
+//! ones the plan resolves.
 use corrlib::pipe::grcov_bin;
 use corrlib::*;
 use grcov::*;
@@ -80,6 +90,16 @@ struct Case {
     nodate: bool,
     cdn: bool,
     inputs: Vec<String>,
+    // external tools
+    llvm: bool,
+    llvm_path: Option<String>,
+    bin_path: Option<String>,
+    guess: bool,
+    /// environment of the run: "stub" = `RUSTC` names the stub rustc (its sysroot holds stub tools),
+    /// "missing" = `RUSTC` names nothing runnable, None = environment untouched
+    rustc: Option<String>,
+    /// the decoy: environment variable `LLVM_PATH` names a third stub directory
+    env_llvm: bool,
 }
 
 impl Default for Case {
@@ -90,6 +110,7 @@ impl Default for Case {
             branch: false, pm: None, token: None, sha: None, sname: None, snum: None, sjob: None, spr: None, sflag: None,
             parallel: false, vcs: None, log: None, lvl: None, nodate: true, cdn: false,
             inputs: vec!["in0.info".into(), "in1.info".into()],
+            llvm: false, llvm_path: None, bin_path: None, guess: false, rustc: None, env_llvm: false,
         }
     }
 }
@@ -137,6 +158,8 @@ impl Case {
         opt("--vcs-branch", &self.vcs);
         opt("--log", &self.log);
         opt("--log-level", &self.lvl);
+        opt("--llvm-path", &self.llvm_path);
+        opt("--binary-path", &self.bin_path);
         for k in 0..6 {
             opt(EXCL_FLAGS[k], &self.excl[k]);
         }
@@ -157,7 +180,8 @@ impl Case {
             a.push(t.to_string());
         }
         for (on, flag) in [(self.ine, "--ignore-not-existing"), (self.nodem, "--no-demangle"), (self.branch, "--branch"),
-                           (self.parallel, "--parallel"), (self.nodate, "--no-date")] {
+                           (self.parallel, "--parallel"), (self.nodate, "--no-date"), (self.llvm, "--llvm"),
+                           (self.guess, "--guess-directory-when-missing")] {
             if on {
                 a.push(flag.into());
             }
@@ -215,6 +239,8 @@ impl Case {
         opt("vcs", &self.vcs);
         opt("log", &self.log);
         opt("lvl", &self.lvl);
+        opt("llvmp", &self.llvm_path);
+        opt("bin", &self.bin_path);
         for k in 0..6 {
             opt(EXCL_KEYS[k], &self.excl[k]);
         }
@@ -233,13 +259,50 @@ impl Case {
         if let Some(n) = self.threads {
             t.push(format!("th={}", n));
         }
-        for (on, key) in [(self.ine, "ine"), (self.nodem, "nodem"), (self.branch, "br"), (self.parallel, "par"), (self.nodate, "nodate")] {
+        for (on, key) in [(self.ine, "ine"), (self.nodem, "nodem"), (self.branch, "br"), (self.parallel, "par"), (self.nodate, "nodate"),
+                          (self.llvm, "llvm"), (self.guess, "guess")] {
             if on {
                 t.push(format!("{}=1", key));
             }
         }
         if self.cdn {
             t.push("res=cdn".into());
+        }
+        // the world of the external tools, looked at by the harness itself
+        if self.rustc.as_deref() == Some("stub") {
+            t.push(format!("rustlib={}", h(rustlib_bin(fx).to_str().unwrap())));
+        }
+        if self.env_llvm {
+            t.push(format!("envllvm={}", h(fx.join("toolsC").to_str().unwrap())));
+        }
+        if self.rustc.is_some() {
+            t.push(format!("gcovenv={}", h(fx.join("stubs/gcov").to_str().unwrap())));
+            let mut ex = vec![];
+            let mut dirs: Vec<PathBuf> = vec![rustlib_bin(fx)];
+            if let Some(d) = &self.llvm_path {
+                dirs.push(PathBuf::from(d));
+            }
+            for d in dirs {
+                for tool in ["llvm-profdata", "llvm-cov"] {
+                    let p = fx.join(&d).join(tool);
+                    if p.exists() {
+                        // spelled as main joins it: the option value as given
+                        ex.push(h(d.join(tool).to_str().unwrap()));
+                    }
+                }
+            }
+            if !ex.is_empty() {
+                t.push(format!("exists={}", ex.join(",")));
+            }
+            let heads = gcno_headers(fx, &self.inputs);
+            if !heads.is_empty() {
+                t.push(format!("gcno={}", heads.iter().map(|b| hex(b)).collect::<Vec<_>>().join(",")));
+            }
+        }
+        if let Some(l) = &self.log {
+            if l != "stdout" && l != "stderr" && !fx.join(l).parent().map(|p| p.is_dir()).unwrap_or(false) {
+                t.push("lognc=1".into());
+            }
         }
         format!("main.plan {}", t.join(" "))
     }
@@ -251,7 +314,8 @@ impl Case {
                         "threads": self.threads, "branch": self.branch, "pm": self.pm, "token": self.token, "sha": self.sha,
                         "sname": self.sname, "snum": self.snum, "sjob": self.sjob, "spr": self.spr, "sflag": self.sflag,
                         "parallel": self.parallel, "vcs": self.vcs, "log": self.log, "lvl": self.lvl, "nodate": self.nodate,
-                        "cdn": self.cdn, "inputs": self.inputs}})
+                        "cdn": self.cdn, "inputs": self.inputs, "llvm": self.llvm, "llvm_path": self.llvm_path,
+                        "bin_path": self.bin_path, "guess": self.guess, "rustc": self.rustc, "env_llvm": self.env_llvm}})
     }
     fn from_json(v: &Value) -> Option<Case> {
         let c = &v["case"];
@@ -272,6 +336,7 @@ impl Case {
             ine: b("ine"), precision: c["precision"].as_u64(), nodem: b("nodem"), excl, threads: c["threads"].as_u64(), branch: b("branch"),
             pm: s("pm"), token: s("token"), sha: s("sha"), sname: s("sname"), snum: s("snum"), sjob: s("sjob"), spr: s("spr"), sflag: s("sflag"),
             parallel: b("parallel"), vcs: s("vcs"), log: s("log"), lvl: s("lvl"), nodate: b("nodate"), cdn: b("cdn"), inputs: vs("inputs"),
+            llvm: b("llvm"), llvm_path: s("llvm_path"), bin_path: s("bin_path"), guess: b("guess"), rustc: s("rustc"), env_llvm: b("env_llvm"),
         })
     }
 }
@@ -335,6 +400,155 @@ fn write_fixture(fx: &Path, rng: &mut Rng) {
     }
 }
 
+// ---- fixture of the external tools ---------------------------------------------------------------
+
+const STUB_HOST: &str = "x86_64-stub-linux-gnu";
+
+fn rustlib_bin(fx: &Path) -> PathBuf {
+    fx.join("sysroot/lib/rustlib").join(STUB_HOST).join("bin")
+}
+
+fn write_exec(path: &Path, text: &str) {
+    std::fs::create_dir_all(path.parent().unwrap()).unwrap();
+    std::fs::write(path, text).unwrap();
+    use std::os::unix::fs::PermissionsExt;
+    std::fs::set_permissions(path, std::fs::Permissions::from_mode(0o755)).unwrap();
+}
+
+/// stand-in for gcov: answers `--version` with 8.3.0 (one `.gcov` text file per notes file),
+/// records how it was called, writes a fixed intermediate report into the working directory
+const GCOV_STUB: &str = r#"#!/bin/sh
+if [ "$1" = "--version" ]; then echo "gcov (GCC) 8.3.0"; exit 0; fi
+gcno=""; flags=""
+for a in "$@"; do case "$a" in -b|-c|-i) flags="$flags$a";; *) gcno="$a";; esac; done
+echo "GCOV $0 $(basename "$gcno") $flags" >> "$TOOL_LOG"
+printf 'file:gsrc/gprog.c\nfunction:1,1,gmain\nlcount:1,1\nlcount:2,0\nlcount:3,4\n' > "$(basename "$gcno").gcov"
+"#;
+
+const PROFDATA_STUB: &str = r#"#!/bin/sh
+out=""; prev=""
+for a in "$@"; do if [ "$prev" = "-o" ]; then out="$a"; fi; prev="$a"; done
+n=0; while IFS= read -r line; do n=$((n+1)); done
+echo "PROFDATA $0 $1 profiles=$n" >> "$TOOL_LOG"
+echo merged > "$out"
+"#;
+
+const COV_STUB: &str = r#"#!/bin/sh
+echo "COV $0 $1 $(basename "$2") $5 $6" >> "$TOOL_LOG"
+cat "$(dirname "$0")/export.lcov"
+"#;
+
+fn write_tool_dir(dir: &Path, tag: u32, profdata: bool, cov: bool) {
+    std::fs::create_dir_all(dir).unwrap();
+    if profdata {
+        write_exec(&dir.join("llvm-profdata"), PROFDATA_STUB);
+    }
+    if cov {
+        write_exec(&dir.join("llvm-cov"), COV_STUB);
+    }
+    // what the llvm-cov of THIS directory exports: the counts name the directory
+    std::fs::write(dir.join("export.lcov"), format!("SF:src/alpha.c\nFN:1,_ZN5alpha3fooEv\nFNDA:{t},_ZN5alpha3fooEv\nDA:1,{t}\nDA:2,0\nDA:13,{t}\nend_of_record\nSF:prof/only.c\nDA:1,{t}\nend_of_record\n", t = tag)).unwrap();
+}
+
+/// zip / directory inputs, a clang `--coverage` pair, a GCC-format pair, a profile, stub tools
+fn write_tools_fixture(fx: &Path, rep: &mut Report) {
+    // directory input with a linked-files-map.json of its own
+    let info0 = std::fs::read(fx.join("in0.info")).unwrap();
+    let info1 = std::fs::read(fx.join("in1.info")).unwrap();
+    std::fs::create_dir_all(fx.join("indir/sub")).unwrap();
+    std::fs::write(fx.join("indir/a.info"), &info0).unwrap();
+    std::fs::write(fx.join("indir/sub/b.info"), &info1).unwrap();
+    let producer_map = "{\"mapped/epsilon.c\": \"lib/epsilon.c\"}";
+    std::fs::write(fx.join("indir/linked-files-map.json"), producer_map).unwrap();
+    // the --path-mapping file says something else about the same key
+    std::fs::write(fx.join("map2.json"), "{\"mapped/epsilon.c\": \"delta2/eps.c\", \"src/beta.c\": \"src/beta_renamed.c\"}").unwrap();
+    // clang --coverage pair: the source is named by its bare file name (guess-directory matters)
+    std::fs::create_dir_all(fx.join("csrc")).unwrap();
+    std::fs::create_dir_all(fx.join("obj")).unwrap();
+    std::fs::write(fx.join("csrc/prog.c"), "int sq(int x) { if (x > 2) return x * x; return x; }\nint main(void) {\n  int s = 0;\n  for (int i = 0; i < 5; i++) s += sq(i);\n  return s == 0;\n}\n").unwrap();
+    let sh = |cmd: &str| Command::new("sh").arg("-c").arg(cmd).current_dir(fx.join("csrc")).env_remove("RUSTC").output().map(|o| o.status.success()).unwrap_or(false);
+    let compiled = sh("clang-14 --coverage -c prog.c -o ../obj/prog.o 2>/dev/null && clang-14 --coverage ../obj/prog.o -o ../obj/prog 2>/dev/null && ../obj/prog; test -f ../obj/prog.gcda");
+    if !compiled {
+        rep.notes.push("part Main: clang-14 --coverage not usable; the LLVM pair is /repo/test/llvm/file.gcno".into());
+        let _ = std::fs::copy("/repo/test/llvm/file.gcno", fx.join("obj/prog.gcno"));
+        let _ = std::fs::copy("/repo/test/llvm/file.gcda", fx.join("obj/prog.gcda"));
+    }
+    let _ = std::fs::remove_file(fx.join("obj/prog.o"));
+    // a binary for --binary-path: the compiled program, or anything with an ELF header
+    std::fs::create_dir_all(fx.join("bins")).unwrap();
+    if std::fs::rename(fx.join("obj/prog"), fx.join("bins/app")).is_err() {
+        let mut elf = vec![0x7f, b'E', b'L', b'F', 2, 1, 1, 0];
+        elf.resize(160, 0);
+        std::fs::write(fx.join("bins/app"), elf).unwrap();
+    }
+    std::fs::write(fx.join("bins/readme.txt"), "not a binary\n").unwrap();
+    // GCC-format pair (its header is not LLVM's): goes to the gcov tool unless --llvm
+    std::fs::create_dir_all(fx.join("gobj")).unwrap();
+    let _ = std::fs::copy("/repo/test/reader_gcc-7.gcno", fx.join("gobj/gprog.gcno"));
+    let _ = std::fs::copy("/repo/test/reader_gcc-7.gcda", fx.join("gobj/gprog.gcda"));
+    // a profile (the stubs never read it)
+    std::fs::create_dir_all(fx.join("prof")).unwrap();
+    std::fs::write(fx.join("prof/default.profraw"), b"stub profile").unwrap();
+    // a tracefile the parser rejects (its error line shows where the log goes)
+    std::fs::write(fx.join("bad.info"), "TN:\nSF:src/alpha.c\nDA:notanumber,1\nend_of_record\n").unwrap();
+    // zip input: tracefiles, a mapping, and the clang pair
+    {
+        let f = std::fs::File::create(fx.join("in.zip")).unwrap();
+        let mut z = zip::ZipWriter::new(f);
+        let o = zip::write::SimpleFileOptions::default().compression_method(zip::CompressionMethod::Stored);
+        use std::io::Write;
+        for (name, bytes) in [("a.info", info0.clone()), ("sub/b.info", info1.clone()), ("linked-files-map.json", producer_map.as_bytes().to_vec()),
+                              ("zobj/prog.gcno", std::fs::read(fx.join("obj/prog.gcno")).unwrap_or_default()),
+                              ("zobj/prog.gcda", std::fs::read(fx.join("obj/prog.gcda")).unwrap_or_default())] {
+            z.start_file(name, o).unwrap();
+            z.write_all(&bytes).unwrap();
+        }
+        z.finish().unwrap();
+    }
+    // tools: A named by --llvm-path, B in the stub rustc's sysroot, C named by the environment
+    // variable LLVM_PATH (never to be used), A2 empty, A3 without llvm-profdata
+    write_tool_dir(&fx.join("toolsA"), 11, true, true);
+    write_tool_dir(&rustlib_bin(fx), 22, true, true);
+    write_tool_dir(&fx.join("toolsC"), 33, true, true);
+    write_tool_dir(&fx.join("toolsA2"), 44, false, false);
+    write_tool_dir(&fx.join("toolsA3"), 55, false, true);
+    write_exec(&fx.join("stubs/gcov"), GCOV_STUB);
+    write_exec(&fx.join("stubs/rustc"), &format!("#!/bin/sh\nif [ \"$1\" = \"--print\" ]; then echo \"{}\"; exit 0; fi\nprintf 'rustc 1.80.0 (051478957 2024-07-21)\\nbinary: rustc\\ncommit-hash: 051478957371ee0084a7c0913941d2a8c4757bb9\\ncommit-date: 2024-07-21\\nhost: {}\\nrelease: 1.80.0\\nLLVM version: 18.1.7\\n'\n",
+        fx.join("sysroot").display(), STUB_HOST));
+}
+
+/// the first eight bytes of every notes file among the inputs (directories walked, zips listed)
+fn gcno_headers(fx: &Path, inputs: &[String]) -> Vec<Vec<u8>> {
+    let mut out = vec![];
+    let mut head = |b: &[u8]| out.push(b.iter().take(8).cloned().collect::<Vec<u8>>());
+    for i in inputs {
+        let p = fx.join(i);
+        if i.ends_with(".zip") {
+            if let Ok(f) = std::fs::File::open(&p) {
+                if let Ok(mut z) = zip::ZipArchive::new(f) {
+                    for k in 0..z.len() {
+                        let mut e = z.by_index(k).unwrap();
+                        if e.name().ends_with(".gcno") {
+                            let mut b = vec![];
+                            let _ = e.read_to_end(&mut b);
+                            head(&b);
+                        }
+                    }
+                }
+            }
+        } else if p.is_dir() {
+            let mut m = BTreeMap::new();
+            walk(fx, &p, &mut m);
+            for (k, v) in m {
+                if k.ends_with(".gcno") {
+                    head(&v);
+                }
+            }
+        }
+    }
+    out
+}
+
 // ---- running the binary ----------------------------------------------------------------------
 
 struct BinOut {
@@ -343,12 +557,45 @@ struct BinOut {
     stderr: String,
     stops: usize,
     consumers: usize,
+    /// what the stub tools recorded, sorted
+    tool_log: Vec<String>,
 }
 
-fn run_bin(fx: &Path, argv: &[String], limit: Duration) -> BinOut {
+/// the environment a case asks for: (variable, value) — None = removed
+fn tool_env(fx: &Path, c: &Case, tool_log: &Path) -> Vec<(&'static str, Option<String>)> {
+    let mut e: Vec<(&'static str, Option<String>)> = vec![("TOOL_LOG", Some(tool_log.display().to_string()))];
+    match c.rustc.as_deref() {
+        Some("stub") => e.push(("RUSTC", Some(fx.join("stubs/rustc").display().to_string()))),
+        Some(_) => e.push(("RUSTC", Some(fx.join("stubs/no-such-rustc").display().to_string()))),
+        None => {}
+    }
+    if c.rustc.is_some() {
+        e.push(("GCOV", Some(fx.join("stubs/gcov").display().to_string())));
+    }
+    e.push(("LLVM_PATH", if c.env_llvm { Some(fx.join("toolsC").display().to_string()) } else { None }));
+    e
+}
+
+fn read_tool_log(p: &Path) -> Vec<String> {
+    let mut v: Vec<String> = std::fs::read_to_string(p).unwrap_or_default().lines().map(|l| l.to_string()).collect();
+    v.sort();
+    let _ = std::fs::remove_file(p);
+    v
+}
+
+fn run_bin(fx: &Path, c: &Case, argv: &[String], limit: Duration) -> BinOut {
     let log_path = fx.join("events.log");
     let _ = std::fs::remove_file(&log_path);
-    let mut child = Command::new(grcov_bin())
+    let tool_log = fx.join("tools.bin.log");
+    let _ = std::fs::remove_file(&tool_log);
+    let mut cmd = Command::new(grcov_bin());
+    for (k, v) in tool_env(fx, c, &tool_log) {
+        match v {
+            Some(v) => cmd.env(k, v),
+            None => cmd.env_remove(k),
+        };
+    }
+    let mut child = cmd
         .current_dir(fx)
         .args(argv)
         .env("GRCOV_VERIF_LOG", &log_path)
@@ -408,7 +655,7 @@ fn run_bin(fx: &Path, argv: &[String], limit: Duration) -> BinOut {
         }
     }
     let _ = std::fs::remove_file(&log_path);
-    BinOut { exit, stdout, stderr, stops, consumers: cons.len() }
+    BinOut { exit, stdout, stderr, stops, consumers: cons.len(), tool_log: read_tool_log(&tool_log) }
 }
 
 // ---- output locations ------------------------------------------------------------------------
@@ -480,6 +727,10 @@ struct POut {
 
 #[derive(Debug, Clone)]
 struct PlanP {
+    llvmpath: Option<String>,
+    tools: Vec<String>, // profdata, cov: F:<hex> | N:<hex> | R
+    gcov: String,
+    routes: Vec<String>,
     log: String,
     th: usize,
     q: usize,
@@ -528,6 +779,10 @@ fn parse_plan(ans: &str) -> Option<PlanP> {
                args: if a.is_empty() { vec![] } else { a.split(',').map(|x| x.to_string()).collect() } }
     }).collect();
     Some(PlanP {
+        llvmpath: opt_s(kv.get("llvmpath")?),
+        tools: kv.get("tools")?.split(',').map(|x| x.to_string()).collect(),
+        gcov: unhex_s(kv.get("gcov")?),
+        routes: kv.get("routes")?.split(',').filter(|x| !x.is_empty()).map(|x| x.to_string()).collect(),
         log: kv.get("log")?.to_string(),
         th: kv.get("th")?.parse().ok()?,
         q: kv.get("q")?.parse().ok()?,
@@ -664,7 +919,7 @@ fn one_case(rep: &mut Report, cx: &mut Ctx, c: &Case, ans: &str) {
     if let Some(l) = &c.log {
         let _ = std::fs::remove_file(fx.join(l));
     }
-    let mut bin = run_bin(&fx, &argv, Duration::from_secs(20));
+    let mut bin = run_bin(&fx, c, &argv, Duration::from_secs(20));
     let mut logged_on_stdout = String::new();
     if c.log.as_deref() == Some("stdout") {
         // `--log stdout`: log lines (`hh:mm:ss [LEVEL] …`) share the stream with the reports
@@ -679,7 +934,7 @@ fn one_case(rep: &mut Report, cx: &mut Ctx, c: &Case, ans: &str) {
     let log_created = c.log.as_ref().map(|l| fx.join(l).is_file());
     let canon = argv.join(" ");
     let nontrivial = multi || !c.sort.is_empty() || c.filter.is_some() || c.p.is_some() || !c.ignore.is_empty() || !c.keep.is_empty()
-        || c.excl.iter().any(|e| e.is_some());
+        || c.excl.iter().any(|e| e.is_some()) || c.rustc.is_some();
     rep.case(&canon, nontrivial);
     rep.count(&format!("main.outcome.{}", ans.split(' ').take(2).collect::<Vec<_>>().join("_").replace("run_log=stderr", "run").replace("run_log=stdout", "run")));
     rep.count(&format!("main.out_kind.{:?}", c.out));
@@ -784,13 +1039,89 @@ fn one_case(rep: &mut Report, cx: &mut Ctx, c: &Case, ans: &str) {
         mismatch(rep, format!("thread count: plan {} workers, queue {}; the binary sent {} stop markers to {} consumer threads", plan.th, plan.q, bin.stops, bin.consumers));
     }
     if let Some(created) = log_created {
-        if created != plan.log.starts_with("file:") {
+        if created != plan.log.starts_with("file:") && c.log.as_deref() != Some("stdout") && c.log.as_deref() != Some("stderr") {
             mismatch(rep, format!("log target: plan {}, log file created by the binary: {}", plan.log, created));
         }
     }
+    // ---- external tools: the stubs that ran are the ones the plan resolves ------------------------
+    let has_profiles = c.inputs.iter().any(|i| i.ends_with(".profraw") || i == "prof");
+    let plan_bin = plan.cons.first().and_then(|x| x.4.clone());
+    let mut lib_plan = plan.clone();
+    let mut lib_runs_tools = true;
+    if c.rustc.is_some() {
+        let flags = if plan.cons.first().map(|x| x.2).unwrap_or(false) { "-b-c-i" } else { "-i" };
+        let mut want: Vec<String> = plan.routes.iter().filter(|r| *r == "G").map(|_| format!("GCOV {} {}", plan.gcov, flags)).collect();
+        let found = |t: &str| t.strip_prefix("F:").map(unhex_s);
+        if has_profiles && plan_bin.is_some() {
+            if let Some(p) = found(&plan.tools[0]) {
+                want.push(format!("PROFDATA {} merge profiles=1", p));
+                if let Some(q) = found(&plan.tools[1]) {
+                    want.push(format!("COV {} export app --format lcov", q));
+                }
+            }
+        }
+        want.sort();
+        // (the name of the notes file is the producer's business, not the plan's)
+        let mut seen: Vec<String> = bin.tool_log.iter().map(|l| {
+            let f: Vec<&str> = l.split(' ').collect();
+            if f[0] == "GCOV" && f.len() >= 4 { format!("GCOV {} {}", f[1], f[3]) } else { l.clone() }
+        }).collect();
+        seen.sort();
+        rep.count(&format!("main.tools.routes={}", plan.routes.join("")));
+        rep.count(&format!("main.tools.profdata={}", &plan.tools[0][..1]));
+        if seen != want {
+            mismatch(rep, format!("external tools: the plan resolves {:?} (routes {:?}, tools {:?}); the stubs that ran: {:?}", want, plan.routes, plan.tools, seen));
+        }
+        if has_profiles {
+            let (pat, what) = if plan_bin.is_none() { ("The path to the compiled binary must be given", "no --binary-path") }
+                else if plan.tools[0].starts_with("N:") { ("We couldn't find llvm-profdata", "llvm-profdata not at the planned place") }
+                else if plan.tools[0] == "R" { ("Error while executing llvm tools", "rustc cannot be asked for the sysroot") }
+                else if plan.tools[1].starts_with("N:") { ("We couldn't find llvm-cov", "llvm-cov not at the planned place") }
+                else { ("", "") };
+            if !pat.is_empty() {
+                rep.count("main.tools.profile_item_skipped");
+                if !bin.stderr.contains(pat) {
+                    mismatch(rep, format!("{}: the plan says the profile item is skipped with an error line containing {:?}; stderr: {:?}", what, pat, bin.stderr.chars().take(300).collect::<String>()));
+                }
+                // nothing for the library to run: the item contributes nothing
+                lib_plan.inputs.retain(|i| !(i.ends_with(".profraw") || i == "prof"));
+            } else {
+                // the static LLVM_PATH of the library can be set once per process
+                match (&plan.llvmpath, grcov::LLVM_PATH.get()) {
+                    (None, None) => {}
+                    (Some(p), None) => { let _ = grcov::LLVM_PATH.set(PathBuf::from(p)); }
+                    (Some(p), Some(q)) if q == Path::new(p) => {}
+                    _ => lib_runs_tools = false,
+                }
+            }
+        }
+        let lib_log = fx.join("tools.lib.log");
+        for (k, v) in tool_env(&fx, c, &lib_log) {
+            match v {
+                Some(v) => std::env::set_var(k, v),
+                None => std::env::remove_var(k),
+            }
+        }
+    }
+    // ---- where the log lines go: the error line of the rejected tracefile --------------------------
+    if c.inputs.iter().any(|i| i == "bad.info") && c.lvl.as_deref() != Some("OFF") {
+        let pat = "Error parsing file";
+        let file_text = c.log.as_ref().and_then(|l| std::fs::read_to_string(fx.join(l)).ok()).unwrap_or_default();
+        let at = (bin.stderr.contains(pat), logged_on_stdout.contains(pat), file_text.contains(pat));
+        let want = if plan.log == "stderr" || plan.log.starts_with("fallback:") { (true, false, false) }
+            else if plan.log == "stdout" { (false, true, false) } else { (false, false, true) };
+        rep.count(&format!("main.log.{}", plan.log.split(':').next().unwrap()));
+        if at != want || (plan.log.starts_with("fallback:") != bin.stderr.contains("Unable to create log file")) {
+            mismatch(rep, format!("log target {}: the error line of the rejected input is on (stderr, stdout, file) = {:?}, planned {:?}; stderr: {:?}", plan.log, at, want, bin.stderr.chars().take(300).collect::<String>()));
+        }
+    }
+    if !lib_runs_tools {
+        rep.count("main.tools.library_side_skipped_static_llvm_path_already_set");
+        return;
+    }
     // ---- execute the plan through the library ------------------------------------------------
     let tmp = fx.join("_libtmp");
-    let results = match lib_pipeline(&plan, &tmp) {
+    let results = match lib_pipeline(&lib_plan, &tmp) {
         Ok(r) => r,
         Err(e) => {
             mismatch(rep, format!("the binary exits 0 but the planned library calls fail: {}", e));
@@ -995,7 +1326,7 @@ pub fn run(rep: &mut Report) {
         -o absent / new file / existing directory / existing file, --sort-output-types, --filter, -s/-p, --ignore/--keep-only, \
         --ignore-not-existing, --precision, --no-demangle, six --excl-* regexes, --threads 1..64 and absent, --branch, --path-mapping, \
         coveralls fields, usage errors, missing source dir, --threads 0) run on the real binary and as library(plan(options)); \
-        non-trivial = several types or a non-default wiring option");
+        non-trivial = several types or a non-default wiring option; stream E: zip/directory inputs, producer mapping vs --path-mapping,         LLVM and GCC notes files with --llvm on/off through a stub gcov, profiles through stub llvm tools located by --llvm-path / the         sysroot of $RUSTC (env LLVM_PATH as a decoy), --binary-path, --guess-directory-when-missing, log targets");
     ensure_binary(rep);
     let t_start = Instant::now();
     let mut rng = Rng::new(rep.seed ^ 0xC03_3A1);
@@ -1071,6 +1402,60 @@ pub fn run(rep: &mut Report) {
     cases.push(Case { pm: Some("notjson.json".into()), types: vec![vec!["files".into(), "lcov".into()]], out: OutKind::NewFile, ..base.clone() });
     cases.push(Case { types: vec![vec!["files".into(), "files".into()]], out: OutKind::NewFile, ..base.clone() });
 
+    // E: external tools, archive inputs, mapping sources, log targets
+    write_tools_fixture(&fx, rep);
+    let two = |types: &str| vec![types.split(',').map(|t| t.to_string()).collect::<Vec<String>>()];
+    let tool_base = Case { types: two("files,lcov"), out: OutKind::Dir, rustc: Some("stub".into()), ..Default::default() };
+    let ins = |v: &[&str]| v.iter().map(|x| x.to_string()).collect::<Vec<String>>();
+    let mut tool_cases: Vec<Case> = vec![];
+    // E1: directory and zip inputs; the producer's linked-files-map.json against --path-mapping
+    for inputs in [ins(&["indir"]), ins(&["in.zip"]), ins(&["indir", "in1.info"]), ins(&["obj", "in0.info"]), ins(&["in.zip", "indir"])] {
+        for pm in [None, Some("map2.json")] {
+            tool_cases.push(Case { inputs: inputs.clone(), pm: pm.map(|x| x.to_string()), s: if rng.chance(1, 2) { Some(".".into()) } else { None },
+                ine: rng.chance(1, 3), branch: rng.chance(1, 2), ..tool_base.clone() });
+        }
+    }
+    // E2: notes files: LLVM header / GCC header, --llvm on and off, --guess-directory-when-missing, --branch
+    for inputs in [ins(&["gobj", "in0.info"]), ins(&["obj", "gobj"]), ins(&["in.zip", "gobj"]), ins(&["obj"])] {
+        for llvm in [false, true] {
+            tool_cases.push(Case { inputs: inputs.clone(), llvm, guess: rng.chance(1, 2), branch: rng.chance(1, 2), threads: Some(rng.range(1, 3)), ..tool_base.clone() });
+        }
+    }
+    // (a stem with a directory part: the zip's zobj/prog — the guess joins that directory onto the bare source name)
+    tool_cases.push(Case { inputs: ins(&["in.zip"]), guess: true, ..tool_base.clone() });
+    tool_cases.push(Case { inputs: ins(&["in.zip"]), guess: false, ..tool_base.clone() });
+    // E4: log target, seen through the error line of a rejected tracefile
+    for (log, lvl) in [(None, None), (Some("run.log"), None), (Some("nodir/run.log"), None), (Some("stdout"), None), (Some("stderr"), None),
+                       (Some("run.log"), Some("WARN")), (Some("nodir/run.log"), Some("OFF"))] {
+        tool_cases.push(Case { inputs: ins(&["in0.info", "bad.info"]), log: log.map(|x| x.to_string()), lvl: lvl.map(|x| x.to_string()),
+            types: two("files"), out: OutKind::NewFile, ..tool_base.clone() });
+    }
+    // E3: profiles through llvm-profdata / llvm-cov: --llvm-path absent (sysroot of $RUSTC), an empty
+    // directory, a directory without llvm-profdata, then (last: the library's static can be set
+    // once) the stub directory; the environment variable LLVM_PATH is a decoy throughout
+    let prof_in = [ins(&["prof/default.profraw", "in0.info"]), ins(&["prof", "in1.info"])];
+    let mut e3: Vec<Case> = vec![];
+    for (lp, rustc, bin) in [(None, "stub", Some("bins/app")), (None, "stub", Some("bins")), (None, "stub", None), (None, "missing", Some("bins/app")),
+                             (Some("toolsA2"), "stub", Some("bins/app")), (Some("toolsA3"), "stub", Some("bins")), (Some("toolsA2"), "missing", Some("bins")),
+                             (Some("toolsA"), "stub", Some("bins/app")), (Some("toolsA"), "missing", Some("bins")), (Some("toolsA"), "stub", None),
+                             (Some("toolsA"), "stub", Some("bins"))] {
+        e3.push(Case { inputs: rng.pick(&prof_in).clone(), llvm_path: lp.map(|x: &str| x.to_string()), rustc: Some(rustc.into()), bin_path: bin.map(|x: &str| x.to_string()),
+            env_llvm: true, nodem: rng.chance(1, 2), ..tool_base.clone() });
+    }
+    let extra = rep.budget(6, 10);
+    for _ in 0..extra {
+        let lp = *rng.pick(&[None, Some("toolsA"), Some("toolsA2"), Some("toolsA3")]);
+        let mut inputs = rng.pick(&prof_in).clone();
+        if rng.chance(1, 2) { inputs.push(rng.pick(&["gobj", "obj", "in.zip", "indir"]).to_string()); }
+        e3.push(Case { inputs, llvm_path: lp.map(|x| x.to_string()), rustc: Some(rng.pick(&["stub", "missing"]).to_string()),
+            bin_path: rng.pick(&[Some("bins/app"), Some("bins"), None]).map(|x| x.to_string()),
+            env_llvm: rng.chance(2, 3), llvm: rng.chance(1, 3), guess: rng.chance(1, 3), pm: if rng.chance(1, 4) { Some("map2.json".into()) } else { None },
+            ..tool_base.clone() });
+    }
+    e3.sort_by_key(|c| c.llvm_path.as_deref() == Some("toolsA"));
+    tool_cases.extend(e3);
+    cases.extend(tool_cases);
+
     let reqs: Vec<String> = cases.iter().map(|c| c.request(&fx, cpus)).collect();
     let answers = run_model(&reqs, &rep.workdir, "mainglue");
     let old_cwd = std::env::current_dir().ok();
@@ -1102,7 +1487,12 @@ pub fn run(rep: &mut Report) {
         }
     }
     let _ = cx.cpus;
-    let _ = std::fs::remove_dir_all(&fx);
+    for k in ["RUSTC", "GCOV", "TOOL_LOG", "LLVM_PATH"] {
+        std::env::remove_var(k);
+    }
+    if std::env::var("MAINGLUE_KEEP").is_err() {
+        let _ = std::fs::remove_dir_all(&fx);
+    }
     rep.notes.push(format!("part Main: {} command lines in {:.1} s", cases.len(), t_start.elapsed().as_secs_f64()));
 }
 
@@ -1120,6 +1510,7 @@ pub fn replay(rep: &mut Report, case: &Value) {
     let fx = fixture_dir(rep);
     write_fixture(&fx, &mut rng);
     let fx = std::fs::canonicalize(&fx).unwrap();
+    write_tools_fixture(&fx, rep);
     let cpus = std::thread::available_parallelism().map(|n| n.get()).unwrap_or(1);
     let reqs = vec![c.request(&fx, cpus)];
     let answers = run_model(&reqs, &rep.workdir, "mainglue");
@@ -1127,5 +1518,7 @@ pub fn replay(rep: &mut Report, case: &Value) {
     let mut cx = Ctx { fx: fx.clone(), cpus, sort_reqs: vec![], sort_want: vec![] };
     one_case(rep, &mut cx, &c, &answers[0]);
     let _ = std::env::set_current_dir("/verif");
-    let _ = std::fs::remove_dir_all(&fx);
+    if std::env::var("MAINGLUE_KEEP").is_err() {
+        let _ = std::fs::remove_dir_all(&fx);
+    }
 }
